@@ -103,7 +103,7 @@ ALL = {"basic": m_basic, "if": m_if, "func": m_func, "names": m_unsorted_names, 
 
 def inputs_for(name, rnd):
     x = rnd.standard_normal((2, 3)).astype(np.float32)
-    if name == "if":
+    if name in ("if", "if_forwarding"):
         return [{"x": x, "cond": np.array(c)} for c in (True, False)]
     return [{"x": x}]
 
@@ -122,6 +122,8 @@ def m_func_defaults():
     body.attribute.append(ref)
     f = helper.make_function("local", "scale", ["a"], ["b"], [body], [helper.make_opsetid("", 18)],
                              attribute_protos=[helper.make_attribute("alpha", 2.0)])
+    # IR 10 functions may carry value_info for their inputs and intermediate values
+    f.value_info.extend([vi("a"), vi("b")])
     nodes = [
         helper.make_node("scale", ["x"], ["t"], name="c_default", domain="local"),
         helper.make_node("scale", ["t"], ["u"], name="c_quarter", domain="local", alpha=0.25),
@@ -263,3 +265,21 @@ def m_shadowing():
 
 
 SERDE_EXTRA = {"shadowing": m_shadowing}
+
+
+def m_if_forwarding():
+    """If branches that forward values through Identity: an OUTER-scope node output, an outer graph input, a local value."""
+    then_g = helper.make_graph([helper.make_node("Identity", ["h"], ["t_out"], name="t_id")], "then_fwd", [], [vi("t_out")])
+    else_g = helper.make_graph([helper.make_node("Neg", ["h"], ["e0"], name="e_neg"), helper.make_node("Identity", ["e0"], ["e_out"], name="e_id")],
+                               "else_fwd", [], [vi("e_out")])
+    then2 = helper.make_graph([helper.make_node("Identity", ["x"], ["t2_out"], name="t2_id")], "then_in", [], [vi("t2_out")])
+    else2 = helper.make_graph([helper.make_node("Identity", ["h"], ["e2_mid"], name="e2_id"), helper.make_node("Abs", ["e2_mid"], ["e2_out"], name="e2_abs")],
+                              "else_in", [], [vi("e2_out")])
+    nodes = [helper.make_node("Relu", ["x"], ["h"], name="relu"),
+             helper.make_node("If", ["c"], ["y0"], name="if_a", then_branch=then_g, else_branch=else_g),
+             helper.make_node("If", ["c"], ["y1"], name="if_b", then_branch=then2, else_branch=else2)]
+    g = helper.make_graph(nodes, "if_forwarding", [vi("x"), helper.make_tensor_value_info("c", TensorProto.BOOL, [])], [vi("y0"), vi("y1")])
+    return helper.make_model(g, opset_imports=[helper.make_opsetid("", 18)], ir_version=10)
+
+
+ALL["if_forwarding"] = m_if_forwarding
